@@ -118,6 +118,29 @@ def run(ctx):
         scenarios.append(dc.Scenario(
             leaf=("endpoint", ("ret", v)), method="GET",
             ehandlers=[(10, {2: ("ret", ("str", "from-error-handler"))})]))
+    # a status page is a handler too: what it returns is what is sent, also
+    # when it answers 200 for the 404 it was asked about (single-page apps)
+    for v in dc.VAL_POOL[::2] + [
+            ("tuple", [("str", "spa"), ("str", "text/html; charset=utf-8"),
+                       ("hdrs", [("X-Fallback", "spa")]), ("int", 200)]),
+            ("tuple", [("bytes", b"x"), ("str", "a/b"), ("none",),
+                       ("int", 200)])]:
+        scenarios.append(dc.Scenario(leaf=("404",), method="GET",
+                                     shandlers={(404, 2): ("ret", v)}))
+    # deeply nested JSON values (below what the json module itself refuses;
+    # compared as text: Python-level recursion is the thing under test)
+    for depth in (50, 400, 900, 1100):
+        deep = []
+        for _ in range(depth):
+            deep = [deep]
+        cur["v"] = lambda deep=deep: deep
+        ans = ask()
+        ctx.case(("deep-json", depth), True, {"nesting": depth})
+        ctx.count("deep-json")
+        if ans.raised is not None or ans.code != 200 or \
+                ans.body != b"[" * (depth + 1) + b"]" * (depth + 1):
+            bad("json-not-equal", {"value": "list nested %d deep" % depth},
+                ans)
     # every tuple body with every content type, status and headers left out
     for tbody in TBODIES:
         for tct in TCTYPES:
@@ -156,6 +179,16 @@ def run(ctx):
             method=rng.choice(["GET", "GET", "HEAD", "POST", "PUT",
                                "DELETE"])))
     for sc, ans, trace in dc.run_scenarios(ctx, "shapes", scenarios):
+        if sc.leaf[0] != "endpoint":
+            # status pages: judged by the model correspondence; what a page
+            # returned with status 200 stays 200
+            v = sc.shandlers[(404, 2)][1]
+            ctx.case(("status-page", repr(v)), True, None)
+            ctx.count("status-page-shape")
+            if v[0] == "tuple" and v[1] and v[1][-1] == ("int", 200) and \
+                    v[1][0][0] in ("str", "bytes") and ans.code != 200:
+                bad("status-page-tuple-status", {"value": repr(v)[:200]}, ans)
+            continue
         v = sc.leaf[1][1]
         ctx.case(("shape", repr(v)), True, {"value": repr(v)[:120],
                                             "status": ans.status})
